@@ -708,7 +708,7 @@ theorem ackCore_flight {s : State} {env : Env} {ranges : List Range} {lvl : Leve
   unfold State.ackCore
   by_cases h1 : s.ackedBuf > 0
   · simp only [h1, if_true]; right; left; rfl
-  · by_cases h2' : lvl = .oneRTT ∧ sp.hist.skipped.any (acksPacket ranges lowest largest)
+  · by_cases h2' : lvl = .oneRTT ∧ sp.hist.skipped.any (acksPacketBin ranges lowest largest)
     · simp only [h1, h2', if_false]; right; right; left; simp
     · simp only [h1, h2', if_false]
       have cp := collect_probesOK (decide (ranges.length > 1)) lowest largest sp.hist.packets sp.hist.first ranges.reverse sp.hist.probes [] []
@@ -1016,7 +1016,7 @@ theorem ptoFire_flight {s : State} {env : Env} {now : Time} {nts : PN} {evs0 : L
 theorem timeoutMain_flight {s : State} {env : Env} {now : Time} {nts : PN} {evs0 : List Ev} {disc0 : List Frame} (fi : FInv s) :
     ((s.timeoutMain env now nts evs0 disc0).2.res = .ok → FInv (s.timeoutMain env now nts evs0 disc0).1) ∧
       Benign (s.timeoutMain env now nts evs0 disc0).2.res := by
-  unfold State.timeoutMain
+  unfold State.timeoutMain State.timeoutMainG
   split
   · simp only []
     rcases detectLostPackets_flight' (env := env) (now := now) (lvl := s.getLossTimeAndSpace.2) fi.1 (by rw [FInv_delta fi]; omega) with h | h
@@ -1026,7 +1026,8 @@ theorem timeoutMain_flight {s : State} {env : Env} {now : Time} {nts : PN} {evs0
     · rw [h]
       exact ⟨fun h => by simp at h, by simp [Benign]⟩
   · split
-    · simp only []
+    · unfold State.antiDeadlockProbe
+      simp only []
       have fi' : FInv ({ s with ptoCount := s.ptoCount + 1, numProbesToSend := s.numProbesToSend + 1 } : State) :=
         ⟨⟨fi.1.ini, fi.1.hs, fi.1.app⟩, fi.2⟩
       split
